@@ -86,6 +86,11 @@ def parse_f90(src, fname):
     fn = src[src.index("subroutine func("):src.index("end subroutine func")]
     obs["dfdp"] = [[int(r), int(c)] for r, c in re.findall(r"^\s*dfdp\((\d+),(\d+)\) =", fn, re.M)]
     obs["dfdu"] = [[int(r), int(c)] for r, c in re.findall(r"^\s*dfdu\((\d+),(\d+)\) =", fn, re.M)]
+    obs["bvp"] = []                                          # args(k) read by the BCND / ICND residuals, in residual order
+    for kind, arr in (("bcnd", "fb"), ("icnd", "fi")):
+        m_ = re.search(r"subroutine %s\(.*?end subroutine %s" % (kind, kind), src, re.S)
+        for line in (re.findall(r"^\s*%s\(\d+\) = (.*)$" % arr, m_.group(0), re.M) if m_ else []):
+            obs["bvp"] += [int(k) for k in re.findall(r"args\((\d+)\)", line)]
     return obs
 
 def parse_consts(text):
@@ -114,6 +119,8 @@ def impl(case):
         if not case["compile"]:
             fb.subprocess = types.SimpleNamespace(run=no_compile)   # the files are complete before f2py is started
         kw = dict(case["overrides"])
+        if case.get("bvp"):
+            kw["boundary_conditions"] = list(case["bvp"]["bc"]); kw["integral_constraints"] = list(case["bvp"]["ic"])
         if case["scenarios"] is not None:
             kw["auto_constants"] = case["scenarios"][0] if case.get("scen_as_str") else tuple(case["scenarios"])
         try:
@@ -220,6 +227,36 @@ def gen_case(rng, cid, n=None, compile_=False, inexact=False):
                 scenarios=scen, scen_as_str=bool(scen and len(scen) == 1 and rng.random() < 0.5), overrides=over, compile=compile_,
                 y_test=[str(Fr(rng.choice([-5, -3, 3, 5, 7]), 16)) for _ in states],
                 par_test=[str(Fr(k + 3, 8)) for k in range(NPARX)])
+
+def gen_bvp(rng, cid, compile_=False):
+    """one-operator model with boundary conditions / an integral constraint (DSL); the integral target `par_<e>` is a declared
+    parameter that does NOT occur in the equations and is declared BEFORE some vector-field parameter; optionally a second
+    constraint-only parameter and a boundary condition that reads a vector-field parameter.  One par_ token per residual."""
+    while True:
+        c = gen_case(rng, cid, n=rng.choice([3, 4, 5, 6, 8, 10, 11, 12, 16]), compile_=compile_)
+        names = [p for p, _ in c["params"]]
+        k = rng.randint(1, 2)
+        cand = names[:-1]
+        if len(cand) < k: continue
+        extras = rng.sample(cand, k)
+        eqs = [[t for t in terms if not (set(extras) & set(t[1]))] for terms in c["eqs"]]
+        used = [p for terms in eqs for _, ps, _ in terms for p in ps]
+        if not all(any(names.index(u) > names.index(e) for u in used) for e in extras): continue
+        c["eqs"] = eqs
+        break
+    st = [s for s, _ in c["states"]]
+    bc = [f"u0_{s} - u1_{s}" for s in st]
+    tokens = []
+    if rng.random() < 0.5 and used:
+        p = rng.choice(used); bc[0] = f"u0_{st[0]} - par_{p}*u1_{st[0]}"; tokens.append(p)
+    ic = []
+    for e in extras:
+        ic.append(f"u_{rng.choice(st)} - par_{e}"); tokens.append(e)
+    if rng.random() < 0.3:
+        ic.append(f"u_{st[0]} - par_{extras[0]}"); tokens.append(extras[0])          # mentioned twice
+    c["bvp"] = dict(bc=bc, ic=ic, tokens=tokens)
+    c["scenarios"] = rng.choice([["bvp"], ["bvp"], None, ["ivp", "bvp"]]); c["scen_as_str"] = False
+    return c
 
 def gen_chain(rng, cid, compile_=False, big=False):
     """node with three operators: src (v' = ...), alg (ALGEBRAIC ONLY: m = polynomial in its own parameters and v, parameters used
@@ -362,7 +399,7 @@ Import ListNotations.
 Open Scope Z_scope.
 Definition finalize (m : model) (e : emission) : emission :=
   {| e_sig := e_sig e; e_call := e_call e; e_stpnt := e_stpnt e; e_stpnt_y := e_stpnt_y e; e_parnames := e_parnames e;
-     e_unames := e_unames e; e_dfdp := e_dfdp e; e_ndim := fst (consts_of m e); e_npar := snd (consts_of m e) |}.
+     e_unames := e_unames e; e_dfdp := e_dfdp e; e_bvp := e_bvp e; e_ndim := fst (consts_of m e); e_npar := snd (consts_of m e) |}.
 Definition array_of (n : nat) (l : list (Z * Qc)) : list Qc :=
   map (fun i => fold_right (fun kv acc => if Z.eqb (fst kv) (Z.of_nat i) then snd kv else acc) 0%Qc l) (seq 1 n).
 Record obs := { o_files : list emission; o_stp : option (list Qc * list Qc); o_vf : option (list Qc * list Qc * list (list term) * list Qc) }.
@@ -377,7 +414,7 @@ Definition ok_with (em : list string -> model -> emission) (stp : emission -> li
     qs_eqb (array_of (List.length par) (fst (stp e))) par && qs_eqb (array_of (List.length y) (snd (stp e))) y end &&
   match o_vf o with None => true | Some (par, y, eqs, dy) => qs_eqb (vf vars m par y eqs) dy end.
 IMPL_OK
-Definition okS := ok_with spec_emit spec_stpnt (fun vars m => spec_vf (spec_params vars (m_args m) (m_ret m))).
+Definition okS := ok_with spec_emit spec_stpnt (fun vars m => spec_vf (spec_params vars (m_args m) (m_ret m)) (spec_all vars m)).
 Definition guard_wf (c : case) := let '(vars, m, o) := c in wf vars m.
 Definition guard_f32 (c : case) := let '(vars, m, o) := c in all_values_f32_exact m.
 """
@@ -403,18 +440,19 @@ def cpair(a, b): return f"({a}, {b})"
 def emission_term(o, f):
     zqs = lambda l: clist([f"({cz(k)}, {cq(v)}, {cstr(n)})" for k, v, n in l])
     zs = lambda l: clist([f"({cz(k)}, {cstr(n)})" for k, n in l])
-    return ("{| e_sig := %s; e_call := %s; e_stpnt := %s; e_stpnt_y := %s; e_parnames := %s; e_unames := %s; e_dfdp := %s; "
+    return ("{| e_sig := %s; e_call := %s; e_stpnt := %s; e_stpnt_y := %s; e_parnames := %s; e_unames := %s; e_dfdp := %s; e_bvp := %s; "
             "e_ndim := %s; e_npar := %s |}" % (clist([cstr(s) for s in o["sig"]]), clist([cz(k) for k in o["call"]]), zqs(o["stpnt"]),
                                                zqs(o["stpnt_y"]), zs(f["parnames"]), zs(f["unames"]),
-                                               clist([cpair(cz(r), cz(c)) for r, c in o["dfdp"]]), cz(f["NDIM"]), cz(f["NPAR"])))
+                                               clist([cpair(cz(r), cz(c)) for r, c in o["dfdp"]]), clist([cz(k) for k in o.get("bvp", [])]), cz(f["NDIM"]), cz(f["NPAR"])))
 
 def coq_case(case, o):
     vars_ = clist([cstr(v) for v in case["decl"]])
     over = [(k, v) for k, v in case["overrides"].items() if k in ("NDIM", "NPAR")]
-    m = ("{| m_events := %s; m_args := %s; m_ret := %s; m_states := %s; m_val := %s; m_dfdp := %s; m_over := %s |}" % (
+    m = ("{| m_events := %s; m_args := %s; m_ret := %s; m_states := %s; m_val := %s; m_dfdp := %s; m_over := %s; m_bvp := %s |}" % (
         clist([cstr(v) for v in case["decl"] + ["t", "y"]]), clist([cstr(v) for v in ["dy"] + used_params(case)]), cstr("dy"),
         clist([cstr(s) for s, _ in case["states"]]), clist([cpair(cstr(k), cq(Fr(float(Fr(v))))) for k, v in case["states"] + case["params"]]),
-        clist([cpair(cnat(r), cstr(p)) for r, p in dfdp_entries(case)]), clist([cpair(cstr(k), cz(v)) for k, v in over])))
+        clist([cpair(cnat(r), cstr(p)) for r, p in dfdp_entries(case)]), clist([cpair(cstr(k), cz(v)) for k, v in over]),
+        clist([cstr(p) for p in (case.get("bvp") or {}).get("tokens", [])])))
     qs = lambda l: clist([cq(v) for v in l])
     stp = vf = "None"
     if "stpnt_run" in o:
@@ -527,7 +565,7 @@ def shrink(ctx, case):
                 return True
         return False
     attempt(dict(best, scenarios=None, overrides={}, scen_as_str=False))
-    if best.get("ops") or best.get("net"):
+    if best.get("ops") or best.get("net") or best.get("bvp"):
         return best
     def truncated(c, k):
         drop = {p for p, _ in c["params"][k:]}
@@ -668,6 +706,9 @@ def check(ctx):
         k = len(cases)                                           # nodes of three operators with an algebraic-only operator in the middle
         n_chain, n_chain_comp = (max(1, int(300 * scale)), max(1, int(40 * scale))) if thorough else (24, 2)
         cases += [gen_chain(ctx.rng, k + i, compile_=i < n_chain_comp, big=i % 4 == 3) for i in range(n_chain)]
+        k = len(cases)                                           # boundary / integral constraints with constraint-only parameters
+        n_bvp, n_bvp_comp = (max(1, int(200 * scale)), max(1, int(20 * scale))) if thorough else (14, 1)
+        cases += [gen_bvp(ctx.rng, k + i, compile_=i < n_bvp_comp) for i in range(n_bvp)]
         k = len(cases)                                           # two nodes with edges: the edge weights are parameters
         n_net, n_net_comp = (max(1, int(250 * scale)), max(1, int(30 * scale))) if thorough else (16, 2)
         cases += [gen_net(ctx.rng, k + i, compile_=i < n_net_comp, big=i % 4 == 3) for i in range(n_net)]
@@ -721,13 +762,15 @@ def check(ctx):
                 compiled=sum(1 for c in cases if c["compile"]), with_unused_parameters=sum(1 for c in cases if len(set(used_params(c))) < len(c["params"])),
                 scenario_sets=sorted({str(c["scenarios"]) for c in cases}), with_overrides=sum(1 for c in cases if c["overrides"]),
                 guard_violating=len(f32_false), e2_validation_calls=len(e2_cases), three_operator_nodes=sum(1 for c in cases if c.get("ops")),
-                two_node_circuits=sum(1 for c in cases if c.get("net")))
+                two_node_circuits=sum(1 for c in cases if c.get("net")), with_bvp_constraints=sum(1 for c in cases if c.get("bvp")))
     write_evidence(ctx, evaluations=len(cases) + len(e2_cases), distinct_nontrivial=len(nt),
                    rule="scalar models with 0-25 parameters (dyadic values, polynomial right-hand sides): (a) one operator, 1-3 state variables, random declaration "
                         "order (state variables interleaved), shuffled order of first use, unused parameters; (b) nodes of three operators src -> alg -> dyn where alg is "
                         "ALGEBRAIC ONLY and uses its >= 2 parameters in an order different from their declaration (declaration order of the model = operators in node "
                         "order, variables in declaration order within each); (c) circuits of two nodes with weighted edges A->B (and B->A): the edge weights are parameters "
-                        "(declaration order = per node in circuit order: weight of its incoming edge, then its operator's variables); scenario selections and constant overrides; "
+                        "(declaration order = per node in circuit order: weight of its incoming edge, then its operator's variables); (d) one-operator models with "
+                        "boundary_conditions= / integral_constraints= whose par_<name> tokens name a parameter that is unused in the equations and declared before a "
+                        "vector-field parameter (it gets the slot behind the vector-field parameters); scenario selections and constant overrides; "
                         "non-trivial = at least 10 parameters are used (slots cross the reserved range) or the order of first use differs from the "
                         "declaration order; distinct = distinct canonical JSON",
                    samples=[dict(equations=eq_strings(c), decl=c["decl"], scenarios=c["scenarios"], overrides=c["overrides"]) for c in cases[1:3]],
